@@ -8,6 +8,7 @@ from vlib.models import TableGrader
 from vlib.oracles import best_assignments
 
 from mitxgraders import ListGrader, SingleListGrader
+from mitxgraders.exceptions import MITxError
 
 RULE = ("A case is a JSON description of a ListGrader tree (leaves: table-driven TableGrader with a generated "
         "{expect: {input: [credit, msg]}} table, or SingleListGrader over such a leaf; inner nodes: nested ListGraders "
@@ -922,7 +923,72 @@ def grouped_cases(draw):
     return spec
 
 
+
+# ----------------------------------------------------------------------------------------------------
+# 'sibling-history' (exhaustive): ordered ListGraders whose answers refer to the submissions of sibling boxes; every
+# sequence of up to three submissions (some of which make a subgrader raise) on ONE grader object; every returned
+# result is (i) what a freshly built grader returns for that submission and (ii) what the arithmetic says
+
+SIB_SUBMISSIONS = [['2', '4', '6'], ['3', '9', '12'], ['3', '9+', '12'], ['2', '5', '7'], ['(', '1', '1'], ['3', '4', '7'],
+                   ['2', '4', '']]
+
+
+def _sib_grader():
+    from mitxgraders import FormulaGrader
+    return ListGrader(answers=['sibling_3-sibling_2', 'sibling_1^2', 'sibling_1+sibling_2'],
+                      subgraders=FormulaGrader(), ordered=True)
+
+
+def _sib_expected(sub):
+    try:
+        a, b, c = [float(x) for x in sub]
+    except ValueError:
+        return None
+    return [abs(a - (c - b)) < 1e-9, abs(b - a * a) < 1e-9, abs(c - (a + b)) < 1e-9]
+
+
+def items_sibling_history(tier):
+    n = len(SIB_SUBMISSIONS)
+    for L in (1, 2, 3):
+        for seq in itertools.product(range(n), repeat=L):
+            yield {'seq': list(seq)}
+
+
+def judge_sibling_history(spec, rec):
+    g = _sib_grader()
+    raised = False
+    after_raise = False
+    for n, k in enumerate(spec['seq']):
+        sub = SIB_SUBMISSIONS[k]
+        st_, res = call(g, None, list(sub))
+        st_f, res_f = call(_sib_grader(), None, list(sub))
+        rec.calls(2)
+        where = 'submission %r after %r on one ordered ListGrader with sibling answers' % (
+            sub, [SIB_SUBMISSIONS[j] for j in spec['seq'][:n]])
+        if st_ != st_f or (st_ == 'ok' and res != res_f) or (st_ == 'err' and (type(res) is not type(res_f) or str(res) != str(res_f))):
+            raise Violation('sibling-history/differs-from-fresh-grader', '%s: %s, a freshly built grader: %s' % (
+                where, (st_, str(res)[:200]), (st_f, str(res_f)[:200])))
+        exp = _sib_expected(sub)
+        if st_ == 'ok' and exp is not None:
+            got = [e['ok'] is True for e in res['input_list']]
+            if got != exp:
+                raise Violation('sibling-history/entry-not-what-the-subgrader-gives', '%s: entries %r, the sibling arithmetic '
+                                'gives %r' % (where, got, exp))
+            if raised:
+                after_raise = True
+        if st_ == 'err':
+            if not isinstance(res, MITxError):
+                raise res
+            raised = True
+    rec.cls('sibling-history/judged')
+    if after_raise:
+        rec.cls('sibling-history/graded-after-a-raising-call')
+    rec.nontrivial(after_raise)
+    return {'seq': spec['seq']}
+
+
 PARTS = [
+    Part('sibling-history', 'enum', judge_sibling_history, items=items_sibling_history, exhaustive=True),
     Part('enum2', 'enum', judge_enum, items=items_enum2, exhaustive=True),
     Part('enum3', 'enum', judge_enum, items=items_enum3, exhaustive=True),
     Part('enumlists', 'enum', judge_enum, items=items_enumlists, exhaustive=True),
